@@ -8,7 +8,9 @@ RULE = ("dsim scenarios (real code, public async API, recording listeners) from 
         "matched, offered/requested incompatible QoS, inconsistent topic, data available / data on readers, sample rejected, "
         "offered/requested deadline missed) x listener placement at the three levels of both sides (corpus: all 2^3 placements x "
         "every family; random: independent masks per level biased to the statuses of the family, listeners installed at creation, "
-        "later by set_listener, or nil listener with a mask; one or two participants; optional second writer); a case is "
+        "later by set_listener, or nil listener with a mask; listeners REPLACED or REMOVED by set_listener after creation, on any of the "
+        "six non-topic levels, before the status is raised; a family with several new-data changes in one processing pass (two DATA "
+        "datagrams coalesced into one RTPS message); one or two participants; optional second writer); a case is "
         "non-trivial when at least one `log` answer records a callback; distinct by op lines")
 ASSUMPTIONS = ["single-threaded deterministic simulator: the order of callbacks of different listener tasks is a scheduling artefact, "
                "so `log` answers are compared as multisets (with exact multiplicities)",
